@@ -2,12 +2,16 @@
 import gen, gen_rules, patdiff
 from props.common_pat import blob_tagger, finding_reproduces, replay  # noqa: F401
 
+import enginetie
+
 CONSTS = ("IGNORE_INST_ADDR", "SKIP_TO_END_OF_PATTERN_NODE")
 ASSUMPTIONS = ["patterns that can match the empty sequence are outside the quantifier"]
 FEATS = {"ops", "logic", "times", "not"}
 
 
 def run(ctx, factor):
+    # engine tie T2: the model of the regex engine alone against the real engine (random ASTs of the emitted operator set)
+    enginetie.run(ctx, ctx.budget(500, 20000))
     g, rep = ctx.g, ctx.report
     rep.rule = ("rules of 1-3 items (with groups and repetitions) on listings that contain 1-4 realisations of the rule, "
                 "adjacent, separated by 0-2 instructions, or overlapping (second realisation starts inside the first); "
